@@ -24,7 +24,7 @@ Oracles (on the description + observation only, never the model):
         declaration stands for; a project whose dependencies are cyclic / unknown / not going to be run is rejected, before
         anything executes; in every run a test starts only after every test it depends on has finished, is executed only if
         all of them passed or are disabled, and is reported skipped otherwise.
-Model side: `drivers/Expand.lean` (`Model/Expand.lean`, `Model/Inject.lean`, `Model/Deps.lean`).
+Model side: `drivers/Expand.lean` (`Model/Expand.lean`, `Model/SuiteObject.lean`, `Model/Deps.lean`).
 
 The description language, the renderer and the model request are shared with `props/_declrun.py`, which declares whole
 run-level projects (harness/run/gen.py) this way and runs them under the recorder.
@@ -60,7 +60,7 @@ DECL_TRUSTED = [
     "decl streams: harness/props/_decl.py renders generated class descriptions (decorators incl. stacked depends_on with paths and predicates, "
     "base / mixin classes, inject_fixture attributes, hooks) to Python source, loads them with the real load_suites_from_classes, validates them "
     "with the real PreparedProject.create and runs them with the real run_suites; hand-written models Model/Expand.lean (decorators as state "
-    "transformers + loader.py expansion + bridge to the run-level project syntax), Model/Inject.lean (attribute lookup on the suite object) and "
+    "transformers + loader.py expansion + bridge to the run-level project syntax), Model/SuiteObject.lean (attribute lookup on the suite object) and "
     "Model/Deps.lean (dependency validation) evaluated by drivers/Expand.lean; the callable naming schemes and the dependency predicates are "
     "small families written once in Python and once in Lean (drivers/Expand.lean customNaming / predHolds); Python's name mangling and MRO "
     "linearisation of the generated (tree-shaped) class hierarchies are computed by the harness and cross-checked against vars() / __mro__ of "
